@@ -294,6 +294,37 @@ func TestC08Recovery(t *testing.T) {
 				relay.Retarget(s.S.TCP)
 			},
 		}
+		// In a fifth of the cases the history starts with a long outage: several
+		// hundred consecutive readings (more than the 432 slots of the acceptance
+		// range) whose original datagrams are all lost.
+		if rapid.IntRange(0, 4).Draw(t, "longOutage") == 0 {
+			n := rapid.IntRange(440, 900).Draw(t, "outageLen")
+			for i := 0; i < n; i++ {
+				if !(originInside && len(clientVal) == 0) {
+					s.setClock(s.now + 1)
+				}
+				slot := s.now
+				lit := strconv.Itoa(1000 + i)
+				file.WriteString(fmt.Sprintf("%d,%s\n", g+300*int64(slot)+11, lit))
+				clientVal[slot] = c09Value(lit, m, d)
+				latest = slot
+				unticked++
+			}
+			world.WriteEnergy(cdir, file.String())
+			ticksGranted++
+			if !world.Step(c, "tick") {
+				s.fail("client did not take the granted tick (panics %+v)", client.VerifPanics())
+			}
+			collect(unticked)
+			unticked = 0
+			for _, b := range pending {
+				r, _ := ref.DecodeReport(b)
+				dropped[r.Timeslot] = true
+			}
+			s.logf("long outage: %d consecutive readings up to slot %d, all %d originals lost", n, latest, len(pending))
+			pending = nil
+			ev.Label("c08:long-outage")
+		}
 		for _, dup := range []string{"reading", "tick", "relay", "burst"} {
 			actions[dup+"#2"] = actions[dup]
 		}
